@@ -20,10 +20,19 @@ Three parts.
 3. An abstract POSIX file system (`Fs`), path resolution with symlink following, and the effect of each
    system call with the follow / no-follow / `O_EXCL` rules the code relies on (`step`, `exec`).
 
+4. The whole of `main`'s `OP_UNPACK` branch (`unpackMain`): `tree_sort`, then `mkdir_p(R)` (`mkdirPCuts`,
+   mkdir_p.c) and `chdir(R)`, then the three walks; every system call can fail — by the abstract file
+   system's own rules or because the environment says so (`Faults`: EPERM/EACCES of an unprivileged user,
+   ENOSPC, EIO, … at any position) — and a failure that the C code does not tolerate ends the run with
+   `EXIT_FAILURE`.  Failures that are not system calls are part of the plan: a data block that cannot be
+   read while a file is filled (`Attr.copyFail`, `Err.dataRead`), an xattr index / key / value that cannot be
+   read (`Attr.xattrFail`, `Err.xattrRead`).
+
 Not modelled (documented in docs/design/C06.md): allocation failure and `size_t` overflow inside
 `sqfs_tree_node_get_path`; the order `qsort(compare_files)` gives the file list (a parameter `ord`;
-the theorems hold for every `ord` that invents no entries); data-reader failures while a file is filled
-(they only stop the run earlier); stdout progress lines.
+the theorems hold for every `ord` that invents no entries); the individual `write`/`lseek`/`fsync` calls on
+the descriptor `fill_files` opened (they name no path; a failure among them is `copyFail`); stdout
+progress lines.
 -/
 import Sqfs.Spec.Path
 namespace Sqfs.Unpack
@@ -52,6 +61,16 @@ structure Attr where
   /-- decoded key/value pairs (key with its prefix, as passed to `lsetxattr`); `[]` when the inode has
       no xattr index or the image has no xattr table -/
   xattrs : List (Bytes × Bytes) := []
+  /-- fill_files.c: `some n` — the copy loop (`sqfs_data_reader_create_stream` / `sqfs_istream_splice` /
+      `flush`) fails after `n` bytes of the content have been written (a data block the reader refuses);
+      `none` — the whole content is written -/
+  copyFail : Option Nat := none
+  /-- restore_fstree.c `set_xattr`: `some k` — after `k` pairs have been set the xattr reader fails
+      (`k = 0`: the index cannot be resolved / located; otherwise the next key or value cannot be read);
+      `none` — all pairs are read -/
+  xattrFail : Option Nat := none
+  /-- `sqfs_inode_get_file_block_start`: where the file's data starts in the image; only `qsort(compare_files)` looks at it -/
+  dataStart : Nat := 0
   deriving DecidableEq, Repr, Inhabited
 
 /-- `sqfs_tree_node_t`.  `payload` = symlink target (`inode->extra`) for `lnk`, file content for `reg`. -/
@@ -161,6 +180,9 @@ structure Flags where
   chown : Bool := false
   setXattr : Bool := false
   setTimes : Bool := false
+  /-- `xattr != NULL` in `main`: the super block does not carry `SQFS_FLAG_NO_XATTRS`, an xattr reader exists.
+      (`set_attribs` calls `set_xattr` only if `(flags & UNPACK_SET_XATTR) && xattr != NULL`.) -/
+  xattrRd : Bool := true
   deriving DecidableEq, Repr, Inhabited
 
 inductive Err where
@@ -172,6 +194,12 @@ inductive Err where
   | argInvalid
   /-- `assert(ret == 0)` after `canonicalize_name` / add_file's "Invalid file path" -/
   | canonFail
+  /-- fill_files.c: "…: unpacking" / `sqfs_data_reader_create_stream` failed — the file was opened (and
+      truncated), part of it may have been written, the run ends -/
+  | dataRead
+  /-- restore_fstree.c `set_xattr`: "Error resolving xattr index" / "Error locating xattr key-value pairs" /
+      "Error reading xattr key" / "Error reading xattr value" -/
+  | xattrRead
   deriving DecidableEq, Repr
 
 inductive Ev where
@@ -244,8 +272,29 @@ def restoreFstree (fl : Flags) (t : TNode) : Out :=
 
 structure FileEnt where
   path : Bytes
+  /-- what the copy loop writes -/
   data : Bytes
+  /-- … and whether it then fails (`Attr.copyFail`) -/
+  fail : Bool := false
+  /-- the inode's data start (`Attr.dataStart`), the key `compare_files` sorts by when no file has a fragment -/
+  loc : Nat := 0
   deriving DecidableEq, Repr
+
+/-- the entry `add_file` makes for a regular file: what the copy loop will write, and whether it then fails -/
+def mkFileEnt (p payload : Bytes) (a : Attr) : FileEnt :=
+  ⟨p, match a.copyFail with | none => payload | some n => payload.take n, a.copyFail.isSome, a.dataStart⟩
+
+/-- insert into a list sorted by `loc`, behind the entries that are not larger (stable) -/
+def insertFile (x : FileEnt) : List FileEnt → List FileEnt
+  | [] => [x]
+  | y :: ys => if x.loc < y.loc then x :: y :: ys else y :: insertFile x ys
+
+/-- fill_files.c `qsort(files, num_files, …, compare_files)` for an image without fragments (every file has
+    `frag_idx = 0xFFFFFFFF`, so `compare_files` orders by start block only): the list sorted by `loc`.  Entries with equal
+    `loc` (hard links, empty files that share a start) keep their order here; `qsort` may put them in any order. -/
+def ordByLoc : List FileEnt → List FileEnt
+  | [] => []
+  | x :: xs => insertFile x (ordByLoc xs)
 
 structure GenOut where
   evs : List Ev := []
@@ -260,12 +309,12 @@ def GenOut.seq (a b : GenOut) : GenOut :=
 mutual
 /-- `gen_file_list_dfs` + `add_file` -/
 def genFiles (rn : Bytes) (comps : List Bytes) : TNode → GenOut
-  | .mk name k payload _ ch =>
+  | .mk name k payload a ch =>
     if !isFilenameSane name then ⟨[.skip name], [], none⟩            -- gate 2
     else if k = .reg then
       match pathOf rn comps with
       | .error e => ⟨[], [], some e⟩
-      | .ok p => ⟨[], [⟨p, payload⟩], none⟩
+      | .ok p => ⟨[], [mkFileEnt p payload a], none⟩
     else if k = .dir then genFilesL rn comps ch
     else ⟨[], [], none⟩
 def genFilesL (rn : Bytes) (anc : List Bytes) : List TNode → GenOut
@@ -273,19 +322,35 @@ def genFilesL (rn : Bytes) (anc : List Bytes) : List TNode → GenOut
   | c :: cs => GenOut.seq (genFiles rn (anc ++ [c.name]) c) (genFilesL rn anc cs)
 end
 
+/-- `fill_files`: one `sqfs_ostream_open_file` (+ the copy loop) per entry; the first entry whose copy loop
+    fails ends the walk (`return -1` after the file has been opened and partly written) -/
+def fillFiles : List FileEnt → Out
+  | [] => ⟨[], none⟩
+  | f :: r => Out.seq ⟨[.sys (.openTrunc f.path f.data)], if f.fail then some .dataRead else none⟩ (fillFiles r)
+
 /-- `fill_unpacked_files`: list, `qsort` (`ord`), `fill_files` -/
 def fillUnpacked (ord : List FileEnt → List FileEnt) (t : TNode) : Out :=
   let g := genFiles t.name [] t
   match g.err with
   | some e => ⟨g.evs, some e⟩
-  | none => ⟨g.evs ++ (ord g.files).map (fun f => .sys (.openTrunc f.path f.data)), none⟩
+  | none => Out.seq ⟨g.evs, none⟩ (fillFiles (ord g.files))
 
-/-- the tail of `set_attribs` for one node -/
-def attrOps (fl : Flags) (k : Kind) (p : Bytes) (a : Attr) : List Ev :=
-  (if fl.setXattr then a.xattrs.map (fun kv => Ev.sys (.setxattr p kv.1 kv.2 true)) else [])
-  ++ (if fl.setTimes then [.sys (.utimens p a.mtime true)] else [])
+/-- restore_fstree.c `set_xattr` for a node with an xattr index: one `lsetxattr` per pair the reader delivers;
+    the reader's failure (`xattrFail`) ends the run -/
+def xattrOps (p : Bytes) (a : Attr) : Out :=
+  match a.xattrFail with
+  | none => ⟨a.xattrs.map (fun kv => Ev.sys (.setxattr p kv.1 kv.2 true)), none⟩
+  | some k => ⟨(a.xattrs.take k).map (fun kv => Ev.sys (.setxattr p kv.1 kv.2 true)), some .xattrRead⟩
+
+/-- the calls of `set_attribs` after `set_xattr` -/
+def attrTail (fl : Flags) (k : Kind) (p : Bytes) (a : Attr) : List Ev :=
+  (if fl.setTimes then [.sys (.utimens p a.mtime true)] else [])
   ++ (if fl.chown then [.sys (.chown p a.uid a.gid true)] else [])
   ++ (if fl.chmod && k != .lnk then [.sys (.chmod p a.perm)] else [])
+
+/-- the tail of `set_attribs` for one node -/
+def attrOps (fl : Flags) (k : Kind) (p : Bytes) (a : Attr) : Out :=
+  Out.seq (if fl.setXattr && fl.xattrRd then xattrOps p a else ⟨[], none⟩) ⟨attrTail fl k p a, none⟩
 
 mutual
 /-- `set_attribs` (children first) -/
@@ -295,7 +360,7 @@ def setAttribs (rn : Bytes) (fl : Flags) (comps : List Bytes) : TNode → Out
     else Out.seq (if k = .dir then setAttribsL rn fl comps ch else ⟨[], none⟩)
       (match pathOf rn comps with
        | .error e => ⟨[], some e⟩
-       | .ok p => ⟨attrOps fl k p a, none⟩)
+       | .ok p => attrOps fl k p a)
 def setAttribsL (rn : Bytes) (fl : Flags) (anc : List Bytes) : List TNode → Out
   | [] => ⟨[], none⟩
   | c :: cs => Out.seq (setAttribs rn fl (anc ++ [c.name]) c) (setAttribsL rn fl anc cs)
@@ -351,15 +416,22 @@ def treeSortL : List TNode → Except Err (List TNode)
       | .ok cs' => .ok (c' :: cs')
 end
 
-/-- everything after `chdir(R)` in `main`, on the tree `sqfs_dir_reader_get_full_hierarchy` returned -/
+/-- the three walks on the sorted tree: `restore_fstree`, `fill_unpacked_files`, `update_tree_attribs` -/
+def planSorted (ord : List FileEnt → List FileEnt) (fl : Flags) (t' : TNode) : Out :=
+  (restoreFstree fl t').seq ((fillUnpacked ord t').seq (updateAttribs fl t'))
+
+/-- `tree_sort` and everything after `chdir(R)` in `main`, on the tree `sqfs_dir_reader_get_full_hierarchy` returned -/
 def unpackTree (ord : List FileEnt → List FileEnt) (fl : Flags) (t : TNode) : Out :=
   match treeSort t with
   | .error e => ⟨[], some e⟩
-  | .ok t' => (restoreFstree fl t').seq ((fillUnpacked ord t').seq (updateAttribs fl t'))
+  | .ok t' => planSorted ord fl t'
 
 /-- the plan for a raw tree (the driver uses directory order for the file list; the check compares the
     fill phase as a multiset) -/
 def unpackPlan (raw : TNode) (fl : Flags) (tf : TreeFlags := {}) : Out := unpackTree id fl (decode tf raw)
+
+/-- the same with the file list in `compare_files` order -/
+def unpackPlanQ (raw : TNode) (fl : Flags) (tf : TreeFlags := {}) : Out := unpackTree ordByLoc fl (decode tf raw)
 
 def Out.syscalls (o : Out) : List Syscall :=
   o.evs.filterMap (fun | .sys s => some s | .skip _ => none)
@@ -399,6 +471,8 @@ def Fs.set (fs : Fs) (key : PathC) (n : Node) : Fs := fun q => if q = key then s
 
 inductive Errno where
   | ENOENT | EEXIST | ENOTDIR | ELOOP | ENAMETOOLONG | EISDIR | EPERM | ENXIO | EINVAL
+  -- only ever injected by the environment (`Faults`), never produced by `step`:
+  | EACCES | ENOSPC | EIO | EROFS | EDQUOT | ENOTSUP | ENOSYS | EINTR | ENOMEM | EMFILE | EBUSY
   deriving DecidableEq, Repr
 
 abbrev NAME_MAX : Nat := 255
@@ -538,5 +612,121 @@ def execTrace (cwd : PathC) : Fs → List Syscall → Fs × List (Syscall × Opt
     | .error e =>
       if tolerated sc e then let (f, t) := execTrace cwd fs r; (f, (sc, some e) :: t)
       else (fs, [(sc, some e)])
+
+/-! ## 4. the whole `OP_UNPACK` branch of `main`, with failing calls -/
+
+/-- What the environment adds to the abstract file system's own failures: `flt i = some e` makes the `i`-th
+    system call of the run (counting `mkdir_p`'s calls, then `chdir`, then the walks' calls) fail with `e` without
+    any effect — `EPERM`/`EACCES` for an unprivileged user, `ENOSPC`, `EIO`, `EROFS`, a quota, … .  The theorems
+    quantify over every `Faults`. -/
+abbrev Faults := Nat → Option Errno
+
+def noFaults : Faults := fun _ => none
+
+/-- one call under a possible environment fault -/
+def stepF (flt : Option Errno) (fs : Fs) (cwd : PathC) (sc : Syscall) : Except Errno Fs :=
+  match flt with
+  | some e => .error e
+  | none => step fs cwd sc
+
+/-- result of running a list of calls -/
+structure Run where
+  fs : Fs
+  /-- the calls made, in order, each with its result (`none` = success) -/
+  trace : List (Syscall × Option Errno) := []
+  /-- the last call of `trace` failed and the C code does not tolerate that: `return -1` -/
+  failed : Bool := false
+
+/-- Run the calls in order, the `j`-th of them being call number `i + j` for the environment.  The first call that
+    fails — and is not a `mkdir` answering `EEXIST` — ends the run: every caller does `return -1` / `goto fail`. -/
+def run (flt : Faults) (cwd : PathC) : Nat → Fs → List Syscall → Run
+  | _, fs, [] => ⟨fs, [], false⟩
+  | i, fs, sc :: r =>
+    match stepF (flt i) fs cwd sc with
+    | .ok fs' => let x := run flt cwd (i + 1) fs' r; ⟨x.fs, (sc, none) :: x.trace, x.failed⟩
+    | .error e =>
+      if tolerated sc e then let x := run flt cwd (i + 1) fs r; ⟨x.fs, (sc, some e) :: x.trace, x.failed⟩
+      else ⟨fs, [(sc, some e)], true⟩
+
+/-- mkdir_p.c (POSIX branch), the loop `for (i = 0; i < len; ++i)` with `len = strlen(path) + 1`: `pre` = the bytes
+    copied to `buffer` so far (`i = pre.length`); at a '/' and at the terminating NUL, if `i > 0`, `buffer` is handed to `mkdir`. -/
+def mkdirPGo (pre : Bytes) : Bytes → List Bytes
+  | [] => if pre.isEmpty then [] else [pre]
+  | c :: t => (if c = SL ∧ !pre.isEmpty then [pre] else []) ++ mkdirPGo (pre ++ [c]) t
+
+/-- `while (path[0] == '/' && path[1] == '/') ++path;` -/
+def stripSlashes : Bytes → Bytes
+  | [] => []
+  | a :: t => match t with
+    | [] => [a]
+    | b :: _ => if a = SL ∧ b = SL then stripSlashes t else a :: t
+
+/-- the strings `mkdir_p(path)` hands to `mkdir(…, 0755)`, in order (`[]` for "" and "/") -/
+def mkdirPCuts (path : Bytes) : List Bytes :=
+  let p := stripSlashes path
+  if p = [] ∨ p = [SL] then [] else mkdirPGo [] p
+
+/-- `mkdir_p(R)`: each `mkdir(buffer, 0755)`; `EEXIST` is tolerated, anything else is "mkdir …: …", `return -1` -/
+def mkdirP (flt : Faults) (cwd : PathC) (fs : Fs) (R : Bytes) : Run :=
+  run flt cwd 0 fs ((mkdirPCuts R).map (Syscall.mkdir · 0o755))
+
+/-- `chdir(p)`: the path must resolve — following symbolic links, also in the last component — to a directory;
+    that directory (its absolute, link-free path) becomes the working directory -/
+def chdir (fs : Fs) (cwd : PathC) (p : Bytes) : Except Errno PathC :=
+  match resolve fs cwd p true with
+  | .error e => .error e
+  | .ok (_, none) => .error .ENOENT
+  | .ok (key, some ⟨.dir, _⟩) => .ok key
+  | .ok (_, some _) => .error .ENOTDIR
+
+def chdirF (flt : Option Errno) (fs : Fs) (cwd : PathC) (p : Bytes) : Except Errno PathC :=
+  match flt with
+  | some e => .error e
+  | none => chdir fs cwd p
+
+/-- everything `main` does for `OP_UNPACK` once the tree has been read -/
+structure MainRun where
+  /-- final file system -/
+  fs : Fs
+  /-- the file system when `mkdir_p` was done (= initial one without `--unpack-root`) -/
+  fsEst : Fs
+  /-- working directory at the end -/
+  cwd : PathC
+  /-- `mkdir_p`'s calls -/
+  pre : List (Syscall × Option Errno) := []
+  /-- `chdir`: `none` = not attempted, `some none` = done, `some (some e)` = failed -/
+  chdirRes : Option (Option Errno) := none
+  /-- the calls of the three walks -/
+  trace : List (Syscall × Option Errno) := []
+  /-- the walks were reached: `tree_sort` passed and the unpack root (if any) is the working directory -/
+  established : Bool := false
+  /-- `EXIT_SUCCESS` = 0 / `EXIT_FAILURE` = 1 -/
+  exit : Nat := 1
+
+/-- rdsquashfs.c `main`, `case OP_UNPACK` (and the `return status` behind it): `tree_sort`; `mkdir_p(unpack_root)`
+    and `chdir(unpack_root)` if `-p` was given — each failure is `goto out` with `EXIT_FAILURE`; then the three walks,
+    ended by the first failing call or by the plan's own error. -/
+def unpackMain (ord : List FileEnt → List FileEnt) (fl : Flags) (t : TNode) (root : Option Bytes) (flt : Faults)
+    (cwd₀ : PathC) (fs₀ : Fs) : MainRun :=
+  match treeSort t with
+  | .error _ => { fs := fs₀, fsEst := fs₀, cwd := cwd₀ }
+  | .ok t' =>
+    let plan := planSorted ord fl t'
+    match root with
+    | none =>
+      let r := run flt cwd₀ 0 fs₀ plan.syscalls
+      { fs := r.fs, fsEst := fs₀, cwd := cwd₀, trace := r.trace, established := true,
+        exit := if r.failed || plan.err.isSome then 1 else 0 }
+    | some R =>
+      let m := mkdirP flt cwd₀ fs₀ R
+      if m.failed then { fs := m.fs, fsEst := m.fs, cwd := cwd₀, pre := m.trace }
+      else
+        let n := (mkdirPCuts R).length
+        match chdirF (flt n) m.fs cwd₀ R with
+        | .error e => { fs := m.fs, fsEst := m.fs, cwd := cwd₀, pre := m.trace, chdirRes := some (some e) }
+        | .ok c =>
+          let r := run flt c (n + 1) m.fs plan.syscalls
+          { fs := r.fs, fsEst := m.fs, cwd := c, pre := m.trace, chdirRes := some none, trace := r.trace,
+            established := true, exit := if r.failed || plan.err.isSome then 1 else 0 }
 
 end Sqfs.Unpack
